@@ -101,5 +101,37 @@ for what, op, fn in (
     pred = (lambda e: any(s["rpms"] for s in e["state"])) if "last RPM" in what else ((lambda e: bool(e["listed"])) if op == "treedump" else (lambda e: True))
     fn(_first(m, op, pred))
     show("Builders", v0, verdicts("Trace_Builders", "Trace_Builders.cfg", m, consts), what)
+# --- Compose accessors
+from harness import compose_access as CA, compose_access_traces as CT  # noqa: E402
+pref = CA.measure_pref()
+trs = [CT.record(900000 + i, 30) for i in range(40)]
+cfgname = "Trace_ComposeAccess.cfg" if pref else "Trace_ComposeAccess_legacyfirst.cfg"
+v0 = verdicts("Trace_ComposeAccess", cfgname, trs, {})
+
+
+def _acc(m, pred):
+    for t in m:
+        seen = set()
+        for i, e in enumerate(t["events"]):
+            if pred(e, seen, t, i):
+                return t, i, e
+            if e["a"] == "access" and e["out"] == "doc":
+                seen.add(e["k"])
+    raise SystemExit("no access event to mutate")
+
+
+for what, pred, fn in (
+        ("logging another document number for a re-used object (as if the file had been read again)",
+         lambda e, seen, t, i: e["a"] == "access" and e["out"] == "doc" and e["k"] in seen, lambda t, i, e: e.__setitem__("v", e["v"] + 1)),
+        ("logging an access that lost the caller's edit",
+         lambda e, seen, t, i: e["a"] == "access" and e["out"] == "doc" and e["e"] != 0, lambda t, i, e: e.__setitem__("e", 0)),
+        ("logging 'missing' where a file was undecodable",
+         lambda e, seen, t, i: e["a"] == "access" and e["out"] == "bad", lambda t, i, e: (e.__setitem__("out", "missing"), e.__setitem__("s", ""))),
+        ("removing a logged file replacement (a missing hook) before a first access",
+         lambda e, seen, t, i: e["a"] == "file" and e["w"] == "new" and any(x["a"] == "access" and x["k"] == e["k"] and x["out"] == "doc" and x["v"] == e["v"] for x in t["events"][i:]),
+         lambda t, i, e: t["events"].pop(i))):
+    m = copy.deepcopy(trs)
+    fn(*_acc(m, pred))
+    show("Compose", v0, verdicts("Trace_ComposeAccess", cfgname, m, {}), what)
 print("BINDING-DEMO %s" % ("ok" if ok else "FAILED"))
 sys.exit(0 if ok else 1)
